@@ -168,8 +168,18 @@ func NewBinaryModel() *BinaryModel {
 func (m *BinaryModel) ResolveDependencies() {
 	m.Config = NewConfiguration(m.Options)
 	for _, packet := range m.Packets {
+		m.resolvePacket(packet)
+	}
+}
+
+// resolvePacket links the object fields of a packet (and of its inline objects) to their packets
+func (m *BinaryModel) resolvePacket(packet *Packet) {
+	{
 		for _, field := range packet.Fields {
 			if of, ok := field.Attr.(*ObjectFieldAttribute); ok {
+				if of.IsIner && of.RefPacket != nil {
+					m.resolvePacket(of.RefPacket)
+				}
 				if of.RefPacket == nil {
 					if refPacket, exists := m.PacketsMap[of.PacketName]; exists {
 						of.RefPacket = refPacket
